@@ -33,12 +33,14 @@ type c07Params struct {
 	// SrvSkip: the server's configuration has InsecureSkipVerify set (a client-side option; it must not switch
 	// off the verification of client certificates)
 	SrvSkip bool `json:"srv_skip,omitempty"`
+	// NoCAs: the server's ClientCAs field is left unset: nothing the clients of this PKI present verifies
+	NoCAs bool `json:"no_cas,omitempty"`
 }
 
 // c07Recorded: how a certificate behaviour looks to a configuration that differs as Changed says.
 func c07Seen(b, changed string) string {
 	switch b {
-	case "trusted", "wrong-eku", "late", "recent", "expired":
+	case "trusted", "wrong-eku", "late", "recent", "expired", "enc-untrusted", "enc-expired":
 		switch changed {
 		case "cas":
 			return "untrusted"
@@ -49,12 +51,12 @@ func c07Seen(b, changed string) string {
 	return b
 }
 
-var c07Behaviours = []string{"none", "trusted", "untrusted", "expired", "wrong-eku", "cv-missing", "cv-wrong-key", "cv-other-transcript", "enc-cert-first-cv-missing", "recent", "late"}
+var c07Behaviours = []string{"none", "trusted", "untrusted", "expired", "wrong-eku", "cv-missing", "cv-wrong-key", "cv-other-transcript", "enc-cert-first-cv-missing", "recent", "late", "enc-untrusted", "enc-expired"}
 
 func (c07) ID() string    { return "C07" }
 func (c07) Level() string { return "fault_enumeration" }
 func (c07) Rule() string {
-	return "enumerates six ClientAuth policies x client behaviours (no certificate, trusted, untrusted CA, expired, expired only at the configured time (not on the wall clock), in date only at the configured time, wrong extended key usage, encryption certificate first without CertificateVerify, certificate with CertificateVerify missing / made with another key / over another transcript) x ECC and ECDHE suites (GCM and CBC) x both stacks for full handshakes, and (policy of the original handshake) x (policy now in force) x behaviour for resumed handshakes over configurations sharing the session cache (also: same policy but other client roots, or a clock past the certificates' end); the verifying policies also with InsecureSkipVerify set on the server's configuration; after every refused full handshake the client offers that handshake's session id with the master secret it computed (must not be resumed); thorough repeats under many seeds. A scripted client on the independent reference implementation plays the behaviour against a real server. The expected outcome comes from a model of the ClientAuthType documentation plus the standard's rule that ECDHE needs the client certificates. distinct = distinct (stack, suite, policies, behaviour, resumed); non-trivial = the server reached the point where the behaviour matters"
+	return "enumerates six ClientAuth policies x client behaviours (no certificate, trusted, untrusted CA, expired, expired only at the configured time (not on the wall clock), in date only at the configured time, wrong extended key usage, encryption certificate first without CertificateVerify, certificate with CertificateVerify missing / made with another key / over another transcript) x ECC and ECDHE suites (GCM and CBC) x both stacks for full handshakes, and (policy of the original handshake) x (policy now in force) x behaviour for resumed handshakes over configurations sharing the session cache (also: same policy but other client roots, or a clock past the certificates' end); the verifying policies also with InsecureSkipVerify set on the server's configuration and with ClientCAs left unset; behaviours also include a good signing certificate with an untrusted / expired encryption certificate (part of the identity under ECDHE); after every refused full handshake the client offers that handshake's session id with the master secret it computed (must not be resumed); thorough repeats under many seeds. A scripted client on the independent reference implementation plays the behaviour against a real server. The expected outcome comes from a model of the ClientAuthType documentation plus the standard's rule that ECDHE needs the client certificates. distinct = distinct (stack, suite, policies, behaviour, resumed); non-trivial = the server reached the point where the behaviour matters"
 }
 func (c07) Components() (real, stub []string) {
 	return []string{"tlcp/dtlcp server (instrumented): certificate request, processCertsFromClient, CertificateVerify check, resumption, session cache"},
@@ -87,6 +89,14 @@ func c07Cases() []c07Params {
 					}
 				}
 			}
+			// the verifying policies on a configuration that names no client roots at all
+			for _, su := range []uint16{ECC_GCM, ECDHE_CBC} {
+				for pol := 3; pol < 6; pol++ {
+					for _, b := range []string{"none", "trusted", "late"} {
+						c07List = append(c07List, c07Params{Stack: st, Suite: su, Policy: pol, Behaviour: b, NoCAs: true})
+					}
+				}
+			}
 			// resumed under the same policy by a configuration with other client roots / a later clock
 			for _, su := range []uint16{ECC_GCM, ECDHE_CBC} {
 				for pol := 1; pol < 6; pol++ {
@@ -103,7 +113,7 @@ func c07Cases() []c07Params {
 			for _, su := range []uint16{ECC_GCM, ECDHE_CBC} {
 				for p1 := 0; p1 < 6; p1++ {
 					for p2 := 0; p2 < 6; p2++ {
-						for _, b := range []string{"none", "trusted", "untrusted", "expired", "wrong-eku", "recent", "late"} {
+						for _, b := range []string{"none", "trusted", "untrusted", "expired", "wrong-eku", "recent", "late", "enc-untrusted", "enc-expired"} {
 							if c07Model(p1, b, su) {
 								c07List = append(c07List, c07Params{Stack: st, Suite: su, Policy: p2, Policy1: p1, Behaviour: b, Resumed: true})
 							}
@@ -153,6 +163,10 @@ func c07Model(policy int, behaviour string, suite uint16) bool {
 			return false
 		case "wrong-eku":
 			return policy == 5
+		case "enc-untrusted", "enc-expired":
+			// a good signing certificate with an encryption certificate that does not verify: the encryption
+			// certificate is part of the client's identity where it is used, that is with the ECDHE suites
+			return !ecdhe
 		}
 	}
 	return true
@@ -203,6 +217,9 @@ func (c07) Run(c *Case, src *vs.Src) *Result {
 	if p.SrvSkip {
 		sigp += " srv-skip-verify"
 	}
+	if p.NoCAs {
+		sigp += " no-client-cas"
+	}
 	if p.Changed != "" {
 		sigp += " changed=" + p.Changed
 	}
@@ -219,6 +236,9 @@ func (c07) Run(c *Case, src *vs.Src) *Result {
 		env := NewEnv(w)
 		env.TCaches["s"], env.DCaches["s"] = tcache, dcache
 		sc := &EPConf{Suites: []uint16{p.Suite}, Certs: []string{"server_sig", "server_enc"}, Auth: policy, ClientCAs: []string{"ca1"}, Cache: "s", SkipVerify: p.SrvSkip}
+		if p.NoCAs {
+			sc.ClientCAs = []string{"none"}
+		}
 		switch changed {
 		case "cas":
 			sc.ClientCAs = []string{"ca2"}
@@ -236,6 +256,12 @@ func (c07) Run(c *Case, src *vs.Src) *Result {
 			h.Peer.OwnEncKey = sm2Key(base + "_enc")
 		}
 		switch p.Behaviour {
+		case "enc-untrusted":
+			o.Certs = ders("client_sig", "client_untrusted_enc")
+			h.Peer.OwnEncKey = sm2Key("client_untrusted_enc")
+		case "enc-expired":
+			o.Certs = ders("client_sig", "client_expired_enc")
+			h.Peer.OwnEncKey = sm2Key("client_expired_enc")
 		case "enc-cert-first-cv-missing":
 			// somebody else's (public) encryption certificate in the authentication position, no proof of possession
 			o.Certs = ders("client2_enc", "client_enc")
@@ -293,7 +319,7 @@ func (c07) Run(c *Case, src *vs.Src) *Result {
 		w.Finish(r, sigp)
 		return co
 	}
-	r.Key = hashKey(p.Stack, p.Suite, p.Policy, p.Policy1, p.Behaviour, p.Resumed, p.Changed, p.SrvSkip)
+	r.Key = hashKey(p.Stack, p.Suite, p.Policy, p.Policy1, p.Behaviour, p.Resumed, p.Changed, p.SrvSkip, p.NoCAs)
 	var co *c07Conn
 	if p.Resumed {
 		first := run(0, p.Policy1, nil, nil)
@@ -318,6 +344,9 @@ func (c07) Run(c *Case, src *vs.Src) *Result {
 		recorded = "none"
 	}
 	seen := c07Seen(p.Behaviour, p.Changed)
+	if p.NoCAs {
+		seen = c07Seen(p.Behaviour, "cas")
+	}
 	if recorded != "none" {
 		recorded = c07Seen(recorded, p.Changed)
 	}
@@ -339,7 +368,7 @@ func (c07) Run(c *Case, src *vs.Src) *Result {
 				r.Violate("peer-certs-unproven", sigp+" peer-certs-without-proof", "server reports %d peer certificates for behaviour %q", len(co.SrvCS.Peer), p.Behaviour)
 			}
 		}
-		if co.SrvCS.Verified > 0 && !((p.Behaviour == "trusted" && seen == "trusted") || (p.Behaviour == "late" && seen == "late") || (p.Behaviour == "wrong-eku" && (p.Policy == 5 || (p.Resumed && p.Policy1 == 5)))) {
+		if co.SrvCS.Verified > 0 && !((p.Behaviour == "trusted" && seen == "trusted") || (p.Behaviour == "late" && seen == "late") || ((p.Behaviour == "enc-untrusted" || p.Behaviour == "enc-expired") && seen == p.Behaviour) || (p.Behaviour == "wrong-eku" && (p.Policy == 5 || (p.Resumed && p.Policy1 == 5)))) {
 			r.Violate("verified-chains", sigp+" verified-chains-unbacked", "server reports verified chains for behaviour %q", p.Behaviour)
 		}
 		if !co.GotApp {
